@@ -242,6 +242,7 @@ def op_universe():
             ops.append(("insert_after", k, ("a", 4), inst))
     ops += [("pop0",), ("popitem",), ("clear",)]
     ops += [("extend", (("a", 1), ("b", 2), ("a", 2))), ("update", (("b", 7), ("a", 8), ("b", 9)))]
+    ops += [("extend", (("a", 1), ("b", 2), ("a", 1)))]      # the same key twice with EQUAL values (pairs that compare equal)
     ops += [("extend_md", (("a", 1), ("b", 2), ("a", 2))), ("extend_md", (("b", 3),)), ("extend_dict", (("a", 5), ("b", 6))),
             ("extend_kw", (("b", 7), ("a", 8))), ("update_dict", (("a", 5), ("b", 6))), ("update_kw", (("b", 7),))]
     for i in (0, 1, -1, -2, 5):
